@@ -32,13 +32,21 @@ func isWriterType(t types.Type) bool {
 }
 
 type wop struct {
-	in     ssa.Instruction
-	helper *ssa.Function // same-package callee that receives the writer (nil for a primitive write)
+	in      ssa.Instruction
+	helper  *ssa.Function      // same-package callee that receives the writer (nil for a primitive write)
+	wrapper *an.WrappedClosure // helper is a function literal handed to this same-package wrapper, which calls it
 }
 
 // writerOps lists primitive writes (invoke on a writer type, fmt.Fprint*/io.WriteString on one) and helper calls that pass a writer on.
 func writerOps(fn *ssa.Function) []wop {
 	var out []wop
+	// function literals handed to a same-package helper that calls them (`c.locked(func() { write })`)
+	for _, w := range an.WrappedClosures(fn) {
+		if w.Wrapper.Pkg != nil && w.Wrapper.Pkg.Pkg.Path() == pkgTransport && helperTouchesWriter(w.Closure, 0) {
+			w := w
+			out = append(out, wop{w.Call, w.Closure, &w})
+		}
+	}
 	for _, b := range fn.Blocks {
 		for _, in := range b.Instrs {
 			call, ok := in.(ssa.CallInstruction)
@@ -51,7 +59,7 @@ func writerOps(fn *ssa.Function) []wop {
 			cc := call.Common()
 			if cc.IsInvoke() {
 				if isWriterType(cc.Value.Type()) && cc.Method.Name() != "Header" {
-					out = append(out, wop{in, nil})
+					out = append(out, wop{in: in})
 				}
 				continue
 			}
@@ -68,11 +76,11 @@ func writerOps(fn *ssa.Function) []wop {
 			n := an.CalleeOf(call).FullName()
 			switch {
 			case passes && (strings.HasPrefix(n, "fmt.Fprint") || n == "io.WriteString"):
-				out = append(out, wop{in, nil})
+				out = append(out, wop{in: in})
 			case callee.Pkg != nil && callee.Pkg.Pkg.Path() == pkgTransport && len(callee.Blocks) > 0:
 				// helper: passes a writer, or is a method of a connection/aggregator type that owns one (flush)
 				if passes || helperTouchesWriter(callee, 0) {
-					out = append(out, wop{in, callee})
+					out = append(out, wop{in: in, helper: callee})
 				}
 			}
 		}
@@ -166,6 +174,31 @@ func (c *Ctx) collectOps(fn *ssa.Function, after ssa.Instruction, inherited map[
 		if op.helper == nil {
 			*out = append(*out, opReport{pos: c.ipos(op.in), where: shortFn(topFn(fn)), held: held, instr: op.in})
 			continue
+		}
+		if w := op.wrapper; w != nil {
+			// the literal runs where the wrapper calls it: add the classes the wrapper holds at every such call; if the wrapper
+			// also keeps the function value some other way, nothing is known about when it runs
+			if w.Escapes || len(w.Invokes) == 0 {
+				held = map[string]bool{}
+			} else {
+				wls := an.Locksets(w.Wrapper)
+				var inW map[string]bool
+				for _, inv := range w.Invokes {
+					h := heldClasses(w.Wrapper, wls, inv)
+					if inW == nil {
+						inW = h
+						continue
+					}
+					for k := range inW {
+						if !h[k] {
+							delete(inW, k)
+						}
+					}
+				}
+				for k := range inW {
+					held[k] = true
+				}
+			}
 		}
 		key := op.helper
 		if seen[key] && len(held) == 0 {
@@ -377,16 +410,30 @@ func c12TerminalOnce(c *Ctx) {
 		}
 		var preamble, complete []ssa.Instruction
 		var nexts []ssa.Instruction
-		for _, b := range do.Blocks {
-			for _, in := range b.Instrs {
-				if isFprintConst(in, "event: complete") {
-					complete = append(complete, in)
-				} else if isFprintConst(in, ":\n\n") {
-					preamble = append(preamble, in)
-				}
-				_ = nexts
+		classify := func(in, site ssa.Instruction) {
+			if isFprintConst(in, "event: complete") {
+				complete = append(complete, site)
+			} else if isFprintConst(in, ":\n\n") {
+				preamble = append(preamble, site)
 			}
 		}
+		for _, b := range do.Blocks {
+			for _, in := range b.Instrs {
+				classify(in, in)
+			}
+		}
+		// a write inside a function literal that a same-package helper calls exactly once happens at that helper call
+		for _, w := range an.WrappedClosures(do) {
+			if !w.Once {
+				continue
+			}
+			for _, b := range w.Closure.Blocks {
+				for _, in := range b.Instrs {
+					classify(in, w.Call)
+				}
+			}
+		}
+		_ = nexts
 		bad := ""
 		if len(preamble) != 1 || len(complete) != 1 {
 			bad = sprintf("expected one stream preamble write and one complete write, found %d and %d", len(preamble), len(complete))
